@@ -47,6 +47,8 @@ class World:
         self._expr_cache = {}
         self._class_mod = {}
         self.modules = {}
+        self.quantified_search = False   # emit the quantified half of the first-occurrence axioms
+        self.range_facts = False         # emit "every byte is 0..255" / "every code point is valid"
 
     # -- modules
     def module(self, modname):
@@ -85,7 +87,7 @@ class World:
             self._expr_cache[text] = ast.parse(text.strip(), mode="eval").body
         return self._expr_cache[text]
 
-    def spec_func(self, fn, name=None):
+    def spec_func(self, fn, name=None, rec=None):
         """Register a Python function of the sidecar as a spec function: its own AST is executed
         by the same executor (symbolic reading); CPython executes it for replays (native twin)."""
         import inspect
@@ -95,6 +97,8 @@ class World:
         node.decorator_list = []
         vf = VFunc("user", "spec:" + (name or fn.__name__), node=node, module=None)
         vf.native = fn
+        if rec is not None:
+            vf.rec = rec
         self.spec_env[name or fn.__name__] = vf
         return fn
 
@@ -121,7 +125,12 @@ class World:
                         obj = obj.val
                     from vf.pyvc.interp import mangle
                     name = mangle(n.attr, f.cls)
-                    if isinstance(obj, VObj) and name in obj.fields:
+                    if obj is NONE:
+                        continue        # e.g. self.__fp.pos while self.__fp is None: nothing to havoc
+                    ty = getattr(c, "field_types", {}).get(name)
+                    if isinstance(obj, VObj) and ty is not None:
+                        obj.fields[name] = self.speclib.fresh_typed(ex, ty, name)
+                    elif isinstance(obj, VObj) and name in obj.fields:
                         obj.fields[name] = ex.havoc_value(obj.fields[name], name)
                     elif isinstance(obj, VObj):
                         raise Unsupported("modifies %s: no such field" % loc)
@@ -217,14 +226,14 @@ class World:
         try:
             if outcome == "normal":
                 stats["normal"] += 1
-                if ex.solver.check() == z3.sat:
+                if ex.sat_now():
                     stats["feasible_normal"] = True
                 for i, text in enumerate(c.ensures):
                     for j, conj in enumerate(_conjuncts(self.parse_expr(text))):
                         _mark_goal(conj)
                         ex.oblige("ensures[%d.%d] %s" % (i, j, _short(conj)), ex.truth(ex.eval(conj)), kind="post")
                 self.frame_check(ex, c, f, snap)
-                if not stats.get("probed") and ex.solver.check() == z3.sat:
+                if not stats.get("probed") and ex.sat_now():
                     stats["probed"] = True
                     ex.oblige("vacuity probe: path condition of a normal path is satisfiable", False, kind="probe")
             else:
